@@ -1207,8 +1207,10 @@ static std::string op_poly(const std::vector<std::string>& w)
         for (; n < t.size() && n < 16; n++) {
             xs[n] = f_of_hex(t[n]);
         }
+        // (the object has been used before: the constructors define every coefficient they count)
+        static float used[8] = { 7.5f, -1234.25f, 3e5f, 11.0f, -2.0f, 9.0f, 1.0f, 4.0f };
         sb_poly_t p;
-        memset(&p, 0, sizeof p);
+        sb_poly_make(&p, used, 8);
         sb_poly_make_bezier(&p, f_of_hex(w[2]), xs, (uint8_t)n);
         std::string out = poly_coeffs(p) + " v=";
         std::vector<std::string> us = csv(w[4]);
@@ -1222,7 +1224,7 @@ static std::string op_poly(const std::vector<std::string>& w)
         // the fixed-arity constructors must build the same polynomial (bit for bit)
         if (n <= 4) {
             sb_poly_t q;
-            memset(&q, 0, sizeof q);
+            sb_poly_make(&q, used, 8);
             float d = f_of_hex(w[2]);
             switch (n) {
             case 0: sb_poly_make_zero(&q); break;
@@ -1495,6 +1497,15 @@ static std::string op_routes(const std::vector<std::string>& w)
     for (int r = 0; r < 2; r++) {
         Guarded g(b);
         int fd = r == 0 ? make_fd(b) : -1;
+        // "fd0": the show is on descriptor 0 (the harness's own standard input is put aside for the duration of the
+        // calls; nothing reads the case stream meanwhile)
+        int saved0 = -1;
+        if (r == 0 && w.size() > 3 && w[3] == "fd0") {
+            saved0 = dup(0);
+            dup2(fd, 0);
+            close(fd);
+            fd = 0;
+        }
         sb_error_t e;
         std::string o;
         if (kind == "traj") {
@@ -1572,6 +1583,10 @@ static std::string op_routes(const std::vector<std::string>& w)
         obs[r] = o;
         if (fd >= 0) {
             close(fd);
+        }
+        if (saved0 >= 0) {
+            dup2(saved0, 0);
+            close(saved0);
         }
     }
     if (err[0] != SB_SUCCESS && err[1] != SB_SUCCESS) {
